@@ -306,7 +306,8 @@ func applierStep(typeChoices []operation.Type, tampers []int) {
 	}
 	op := &operation.AnchoredOperation{Type: typ, UniqueSuffix: suffix, OperationRequest: c.request,
 		TransactionTime: verifrt.AnyU64("tx-time"), TransactionNumber: verifrt.AnyU64("tx-num"), ProtocolVersion: verifrt.AnyU64("tx-ver"),
-		CanonicalReference: verifrt.AnyAtom("op-canon"), EquivalentReferences: []string{verifrt.AnyAtom("op-eq")}}
+		CanonicalReference: verifrt.AnyAtom("op-canon"), EquivalentReferences: []string{verifrt.AnyAtom("op-eq0"), verifrt.AnyAtom("op-eq1"), verifrt.AnyAtom("op-eq2")}}
+	opRefs := append([]string{}, op.EquivalentReferences...)
 	verifrt.Assume(op.TransactionTime < 1<<62)
 	if typ == "other" {
 		op.Type = operation.Type(verifrt.AnyAtom("unknown-type"))
@@ -345,7 +346,7 @@ func applierStep(typeChoices []operation.Type, tampers []int) {
 	case operation.TypeCreate, operation.TypeRecover:
 		verifrt.Assert(res.RecoveryCommitment == c.recCommit, "create/recover always installs its new recovery commitment")
 		verifrt.Assert(verifrt.JSONEqual(res.AnchorOrigin, c.origin), "create/recover installs its anchor origin")
-		verifrt.Assert(res.CanonicalReference == op.CanonicalReference && verifrt.SameObject(res.EquivalentReferences, op.EquivalentReferences),
+		verifrt.Assert(res.CanonicalReference == op.CanonicalReference && verifrt.JSONEqual(res.EquivalentReferences, opRefs),
 			"create/recover installs the operation's canonical and equivalent references")
 		if c.typ == operation.TypeCreate {
 			verifrt.Assert(res.CreatedTime == op.TransactionTime && res.UpdatedTime == 0, "create sets the created time")
